@@ -1,4 +1,4 @@
-package main
+package main_test
 
 // C12 — aspect elimination ranks in reverse order of elimination.
 // C13 — satisfaction heuristic ranks by the first level an alternative satisfies.
